@@ -169,8 +169,13 @@ let kernel toks =
   | ["trig"; a] -> pr "k trig %d | gen %d %d | tab %d %d %d %d\n" (int_of_z (trig_idx (zi a))) (int_of_z (trigon_sin (zi a))) (int_of_z (trigon_cos (zi a)))
       (int_of_z g_TRIG_SIN_LO) (int_of_z g_TRIG_SIN_LEN) (int_of_z g_TRIG_COS_LO) (int_of_z g_TRIG_COS_LEN)
   | ["anglecheck"; v] -> pr "k anglecheck %d\n" (bi (angle_check (zi v)))
-  | ["parse_utc"; hex] -> pr "k parse_utc %s\n" (z_to_string (parse_utc (bytes_of_hex hex) Z0))
-  | ["create_utc"; us] -> pr "k create_utc %s\n" (hex_of_bytes (create_utc (zi us)))
+  | ["parse_utc"; hex] ->
+    let b = bytes_of_hex hex in
+    let g = (match b with
+        | [b0; b1; b2; b3; b4; b5; c0; c1; c2; c3] -> z_to_string (fn_parseTimeUTCWithUs b0 b1 b2 b3 b4 b5 c0 c1 c2 c3)
+        | _ -> "?") in
+    pr "k parse_utc %s | gen %s\n" (z_to_string (parse_utc b Z0)) g
+  | ["create_utc"; us] -> pr "k create_utc %s | gen %s\n" (hex_of_bytes (create_utc (zi us))) (hex_of_bytes (fn_createTimeUTCWithUs (zi us)))
   | ["parse_ymd"; tz; hex] -> pr "k parse_ymd %s\n" (z_to_string (parse_ymd (zi tz) (bytes_of_hex hex) Z0))
   | ["create_ymd"; tz; us] -> pr "k create_ymd %s\n" (hex_of_bytes (create_ymd (zi tz) (zi us)))
   | ["crc"; hex] -> pr "k crc %s\n" (z_to_string (crc_calc g_crc_table (bytes_of_hex hex) Z0 true))
